@@ -41,8 +41,13 @@ pub fn run(ctx: &mut Ctx) {
                 };
                 t = t.cofactor(order[lvl], rng.bool());
             }
-            for lvl in k..n {
-                t = t.cofactor(order[lvl], rng.bool());
+            // mostly functions over the first k levels only (then the counts are checked too);
+            // sometimes the function also mentions deeper levels: then only "same function"
+            // and "each of the first k levels exactly once, in order, on every path" apply
+            if !rng.chance(1, 4) {
+                for lvl in k..n {
+                    t = t.cofactor(order[lvl], rng.bool());
+                }
             }
             one(ctx, rng, &t, &order, k, "rand");
         });
@@ -52,9 +57,17 @@ pub fn run(ctx: &mut Ctx) {
 /// every path must test var_at_level(0..k-1) exactly once and in order
 fn check_paths(p: BddPtr, level: usize, k: usize, order: &[usize], seen: &mut HashSet<(usize, usize)>) -> Result<(), String> {
     if level == k {
+        // below the smoothed prefix only variables of deeper levels may be tested
         return match p {
             BddPtr::PtrTrue | BddPtr::PtrFalse => Ok(()),
-            BddPtr::Reg(nd) | BddPtr::Compl(nd) => Err(format!("a path tests variable {} after all {} levels were tested", nd.var.value(), k)),
+            BddPtr::Reg(nd) | BddPtr::Compl(nd) => {
+                for x in crate::walk::bdd_nodes(BddPtr::Reg(nd)) {
+                    if order[..k].contains(&x.var.value_usize()) {
+                        return Err(format!("a path tests variable {} again below the {} smoothed levels", x.var.value(), k));
+                    }
+                }
+                Ok(())
+            }
         };
     }
     match p {
@@ -129,6 +142,11 @@ fn one(ctx: &mut Ctx, rng: &mut Rng, t: &Tt, order: &[usize], k: usize, regime: 
             if let Err(why) = check_paths(sm, 0, k, order, &mut HashSet::new()) {
                 ctx.violation("smooth.paths", "a path of the smoothed diagram does not test every level exactly once in order",
                     json!({"why": why, "input": info}));
+                continue;
+            }
+            let deep = (k..n).any(|l| t.depends_on(order[l]));
+            if deep {
+                ctx.count("inputs_mentioning_deeper_levels", 1);
                 continue;
             }
             // counts: arbitrary non-normalised small-integer weights; the variables beyond the
